@@ -23,7 +23,12 @@ class CHECK(Check):
             "a binary file class; 0-2 earlier contents (records, rows of delimited tokens incl. rows whose tokens are all empty, "
             "blank lines, garbage, truncated binary records) are read through either file class before the measured read of "
             "either storage; every read of the history runs under its own budget and is judged, the measured one is also "
-            "compared with the model (a read depends only on the content and the definitions).")
+            "compared with the model (a read depends only on the content and the definitions). "
+            "(f) the LINE of a shared register class may itself be declared with a storage (Line(..., storage=\"TEXT\"|\"BINARY\"), "
+            "as a layout shared by the text and the binary flavour of a format is): in the small scope every list is also run with "
+            "its LINEs declared BINARY/TEXT, among the random histories about half of the classes declare one, so that a class is "
+            "read through a file class whose STORAGE differs from the storage its LINE declares; the reading is governed by the "
+            "file's storage, hence the same model entry and the same bound.")
     exhaustive = True
 
     def entry_of(self, case):
@@ -122,10 +127,13 @@ class CHECK(Check):
                 rec = (d["ident"].ljust(d["digits"]) + "12345678901234")[:w]
                 pool += [(False, rec + "\n" + sep.join([d["ident"]] + ["12"] * nf)), (False, rec + "\n" + sep * nf + "\n"),
                          (True, rec + rec[: w // 2]), (True, sep * nf + rec)]
-            for before in [None] + pool:
-                for binary, content in pool:
-                    yield {"fam": "reg", "binary": binary, "defs": defs, "linesize": 1, "content": content,
-                           "before": [] if before is None else [{"binary": before[0], "linesize": 1, "content": before[1]}]}
+            # (f) the same scope once more with LINEs that declare a storage of their own (first class BINARY, the others TEXT)
+            declared = [dict(d, line_storage="BINARY" if i == 0 else "TEXT") for i, d in enumerate(defs)]
+            for ds in (defs, declared):
+                for before in [None] + pool:
+                    for binary, content in pool:
+                        yield {"fam": "reg", "binary": binary, "defs": ds, "linesize": 1, "content": content,
+                               "before": [] if before is None else [{"binary": before[0], "linesize": 1, "content": before[1]}]}
         # random: 1-3 generated classes, 0-2 earlier reads
         for _ in range(800 if tier == "quick" else 20000):
             defs = self.shared_defs(rng)
@@ -135,6 +143,13 @@ class CHECK(Check):
                 steps.append({"binary": binary, "linesize": rng.choice([1, defs[0]["digits"] or 1, 8]) if binary else 1,
                               "content": self.step_content(rng, defs, binary)})
             last = steps.pop()
+            # (f) declared LINE storages, drawn from a generator derived from the case so that the main stream is left as it was
+            r3 = random.Random("C18 declared line storage %r %r" % (defs, last))
+            if r3.random() < 0.7:
+                for d in defs:
+                    st = r3.choice(["", "TEXT", "BINARY", "BINARY"])
+                    if st:
+                        d["line_storage"] = st
             yield {"fam": "reg", "binary": last["binary"], "defs": defs, "linesize": last["linesize"], "content": last["content"], "before": steps}
 
     @staticmethod
@@ -190,6 +205,20 @@ class CHECK(Check):
             return "".join(p + rng.choice(["", "", "\n"]) for p in parts)
         return "\n".join(parts) + (rng.choice(["\n", ""]) if parts else "")
 
+    @staticmethod
+    def mk_classes(defs):
+        """reglib.mk_register_classes, except that a definition with "line_storage" declares its LINE with that storage
+        (Line(fields, delimiter=..., storage=...)); the fields, the delimiter and the hierarchy are the same"""
+        from cfinterface.components.line import Line
+        out = []
+        for i, rd in enumerate(defs):
+            par = rd.get("parent")
+            extra = None
+            if rd.get("line_storage"):
+                extra = {"LINE": Line([fl.mk_field(fd) for fd in rd["fields"]], delimiter=rd.get("delim"), storage=rd["line_storage"])}
+            out.append(reglib.mk_register_class(rd, i, extra=extra, base=out[par] if par is not None and par < i else None))
+        return out
+
     nonterminations = 0
     shrinking = False
 
@@ -237,7 +266,7 @@ class CHECK(Check):
         if case["fam"] == "reg":
             # the register classes are built once per case; a history reads other contents through file classes of either storage
             # that declare these same classes (one file class per storage), each read under its own budget
-            regs = reglib.mk_register_classes(case["defs"])
+            regs = self.mk_classes(case["defs"])
             fcls = {}
             for st in case.get("before", []):
                 if st["binary"] not in fcls:
@@ -341,6 +370,14 @@ class CHECK(Check):
                 d["shared_with_default_identifier"] = 1
             if any(rd.get("delim") for rd in case["defs"]):
                 d["shared_with_delimited_line"] = 1
+            decl = [rd["line_storage"] for rd in case["defs"] if rd.get("line_storage")]
+            if decl:
+                d["line_declares_storage"] = 1
+                reads = [st["binary"] for st in case["before"]] + [case["binary"]]
+                if any((s == "BINARY") != b for s in decl for b in reads):
+                    d["line_storage_differs_from_file_storage"] = 1
+                if any((s == "BINARY") != case["binary"] for s in decl):
+                    d["line_declares_%s_read_as_%s" % ("binary" if not case["binary"] else "text", "binary" if case["binary"] else "text")] = 1
         return d
 
     def signature(self, case, why):
@@ -355,7 +392,7 @@ class CHECK(Check):
             c = dict(case)
             c["before"] = bef[:i] + bef[i + 1:]
             yield c
-        if bef:
+        if "before" in case:
             defs = case["defs"]
             if len(defs) > 1 and not any("parent" in rd for rd in defs):
                 for i in range(len(defs)):
@@ -363,10 +400,11 @@ class CHECK(Check):
                     c["defs"] = defs[:i] + defs[i + 1:]
                     yield c
             for i, rd in enumerate(defs):
-                if "parent" in rd:
-                    c = dict(case)
-                    c["defs"] = defs[:i] + [{k: v for k, v in rd.items() if k != "parent"}] + defs[i + 1:]
-                    yield c
+                for key in ("parent", "line_storage"):
+                    if key in rd:
+                        c = dict(case)
+                        c["defs"] = defs[:i] + [{k: v for k, v in rd.items() if k != key}] + defs[i + 1:]
+                        yield c
                 if len(rd["fields"]) > 1:
                     # drop the last column (the columns before it keep their places)
                     last = max(range(len(rd["fields"])), key=lambda j: rd["fields"][j]["start"])
